@@ -5,7 +5,8 @@
     helper defined exactly once in the file or its imports, no self import) are evaluated in Coq on the
     parsed files. Dart itself is never executed (no SDK): DartSem covers the enum conversions only. *)
 From Coq Require Import List String ZArith Bool.
-From GM Require Import Base.Result Facts.GoFacts Facts.Ana Model.Enums Model.Fields Model.Classify Model.Names Model.SqlTypes Model.Dart Proofs.C10 Proofs.C06.
+From GM Require Import Base.Result Facts.GoFacts Facts.Ana Model.Enums Model.Fields Model.Classify Model.Names Model.SqlTypes Model.Dart Proofs.C10 Proofs.C06 Proofs.C06t.
+From GM Require Import Base.StrOrd Model.DartGen.
 Import ListNotations.
 Local Open Scope string_scope.
 
@@ -50,9 +51,34 @@ Theorem C06_struct_routines_use_the_go_keys : forall n,
 Proof. exact json_keys_are_go_keys. Qed.
 
 
+(** the import block of an output file, assembled from the edges recorded by the traversal ([Model/DartGen.v], compared
+    with the declaration lists and import blocks of the real generator on every run): strictly sorted (hence without
+    duplicates), never the file itself, exactly the other files of the recorded edges, and a function of the SET of
+    edges (not of the order in which map iteration visits them) *)
+Theorem C06_import_block : forall file imps,
+  strict_sorted (imports_of file imps) /\ ~ In file (imports_of file imps)
+  /\ (forall g, In g (imports_of file imps) <-> In (file, g) imps /\ g <> file).
+Proof. intros file imps. split; [apply imports_of_sorted|]. split; [apply no_self_import|]. intro g. apply imports_of_In. Qed.
+
+Theorem C06_import_block_depends_on_the_edge_set_only : forall file a b,
+  (forall e, In e a <-> In e b) -> imports_of file a = imports_of file b.
+Proof. exact imports_of_set. Qed.
+
+(** the link condition computed on every run on the traversal's output means: every declaration a declaration refers
+    to (class, typedef, enum, JSON helpers of a type it uses, union it implements) is emitted in its own file or in a
+    file for which an import edge was recorded *)
+Theorem C06_links_closed_means_every_reference_resolves : forall st, links_closed st = true ->
+  forall d m, In d (ds_decls st) -> In m (dd_mentions d) ->
+  exists d', In d' (ds_decls st) /\ dd_id d' = m
+             /\ (dd_file d' = dd_file d \/ (In (dd_file d, dd_file d') (ds_imps st) /\ dd_file d' <> dd_file d)).
+Proof. exact links_closed_sound. Qed.
+
 Print Assumptions C06_keys_and_constructor_arguments.
 Print Assumptions C06_enum_value_table_roundtrip.
 Print Assumptions C06_positional_enum_index_is_value.
 Print Assumptions C06_output_files_are_flat.
 Print Assumptions C06_output_file_examples.
 Print Assumptions C06_struct_routines_use_the_go_keys.
+Print Assumptions C06_import_block.
+Print Assumptions C06_import_block_depends_on_the_edge_set_only.
+Print Assumptions C06_links_closed_means_every_reference_resolves.
